@@ -10,6 +10,7 @@ namespace DI.Construct
 inductive Kind where
   | none | nan                                   -- None, float('nan') / np.float64('nan')
   | bool | int | float | str (empty : Bool) | date | datetime | timedelta | bytes | obj
+  | datesub                                      -- an instance of a proper subclass of date / datetime (pandas.Timestamp …)
   | npbool | npint | npfloat | npdt | npstr
   deriving Repr, DecidableEq, Inhabited
 
@@ -79,8 +80,8 @@ def npInfer (es : List Elem) : Option DClass :=
   else if es.all (· == .k .timedelta) then some .object
   else if es.all (· == .k .bytes) then some .bytes
   else if es.all (fun e => match e with
-      | .k .obj | .k .date | .k .datetime | .k .timedelta | .k .bool | .k .int | .k .float => true | _ => false)
-      && es.any (· == .k .obj) then some .object
+      | .k .obj | .k .datesub | .k .date | .k .datetime | .k .timedelta | .k .bool | .k .int | .k .float => true | _ => false)
+      && es.any (fun e => e == .k .obj || e == .k .datesub) then some .object
   else none
 
 /-- `is_na` on the stored element. -/
@@ -130,8 +131,8 @@ def fits (c : DClass) (x : Kind) : Bool :=
     | .int, .int | .int, .npint | .int, .bool => true
     | .float, .float | .float, .npfloat | .float, .int | .float, .npint => true
     | .str, .str _ => true
-    | .date, .date | .date, .npdt => true
-    | .datetime, .datetime | .datetime, .date | .datetime, .npdt => true
+    | .date, .date | .date, .npdt | .date, .datesub => true
+    | .datetime, .datetime | .datetime, .date | .datetime, .npdt | .datetime, .datesub => true
     | .timedelta, .timedelta => true
     | .object, _ => true
     | _, _ => false)
